@@ -15,7 +15,7 @@ package main
 // block + state, the receipts it stored hash to the headers' receipt roots, every transaction of A resolves through the tx
 // lookup to its block of A, and re-executing A's period-end blocks on that node reproduces their headers.
 //
-//	H seed=<s> prefix=<p> a=<n> b=<m> [period=1] [plain=1]
+//	H seed=<s> prefix=<p> a=<n> b=<m> [period=1] [plain=1] [long=1]
 
 import (
 	"fmt"
@@ -182,13 +182,13 @@ func runHistory(line string) (fails bool, what string, info hInfo, err error) {
 	}()
 	kv := parseKV(line)
 	p, la, lb, seed := kv["prefix"], kv["a"], kv["b"], kv["seed"]
-	if p < 0 || p > 40 || la < 2 || la > 80 || lb < 1 || lb >= la {
+	if p < 0 || p > 120 || la < 2 || la > 120 || lb < 1 || lb >= la {
 		return false, "", info, fmt.Errorf("bad H scenario %q", line)
 	}
 	r := vh.NewRNG(uint64(seed))
 	header := []string{"W users=8 pool=100000000000000000000000 ver=5",
 		"GV 0 1 " + youN(2000).String() + " 1", "GV 1 2 " + youN(1000).String() + " 1", "GV 2 3 " + youN(300).String() + " 1"}
-	prof := &genProfile{lazy: map[int]bool{}, nextKey: 3, txPerBlk: 3, plain: kv["plain"] == 1}
+	prof := &genProfile{lazy: map[int]bool{}, nextKey: 3, txPerBlk: 3, plain: kv["plain"] == 1 || kv["long"] == 1}
 	sa, _, err := newSession(header, 1)
 	if err != nil {
 		return false, "", info, err
@@ -210,6 +210,15 @@ func runHistory(line string) (fails bool, what string, info hInfo, err error) {
 	// fork are pending records whose transactions a node can only find by walking the block's own ancestry.
 	freq0 := sa.w.yp.StakingTrieFrequency
 	forced := func(num uint64, idx int) []string {
+		if kv["long"] == 1 {
+			// long layout: two validator withdrawals requested in block 2 and nothing else that touches the withdraw queue; they
+			// enter the queue at the first period end, are released WithdrawDelay blocks later at a period end where no record is
+			// added or discarded, and at least two more period ends follow (the fork starts before the release).
+			if num == 2 {
+				return []string{"VW 1 1 u5 " + youN(int64(r.Range(20, 200))).String(), "VW 0 0 u6 " + youN(int64(r.Range(5, 90))).String()}
+			}
+			return nil
+		}
 		if kv["period"] != 1 {
 			return nil
 		}
@@ -227,7 +236,7 @@ func runHistory(line string) (fails bool, what string, info hInfo, err error) {
 		return nil
 	}
 	var prefixExtra func(uint64, int) []string
-	if kv["period"] == 1 {
+	if kv["period"] == 1 || kv["long"] == 1 {
 		prefixExtra = forced
 	}
 	prefix, e := buildBranch(sa, prof, r.Fork(), p, 0, prefixExtra)
@@ -254,7 +263,7 @@ func runHistory(line string) (fails bool, what string, info hInfo, err error) {
 		firstA = nil
 	}
 	extraA := func(num uint64, idx int) []string {
-		if kv["period"] == 1 {
+		if kv["period"] == 1 || kv["long"] == 1 {
 			return forced(num, idx)
 		}
 		if idx == 0 {
